@@ -331,3 +331,18 @@ package diff
 //@ pure
 //@ ensures result == vs_any(func(i int) bool { return 0 <= i && i < len(sd) && sd[i].Matches(diff) })
 //@ loop 1 invariant vs_all(func(j int) bool { return 0 <= j && j < vs_done(1) ==> !sd[j].Matches(diff) })
+
+//@ func SpecDifferences.FilterIgnores
+//@ props C15
+//@ safety
+//@ modifies nothing
+//@ ensures len(result) <= len(sd)
+//@ ensures vs_all(func(i int) bool { return 0 <= i && i < len(sd) ==> ignores.Contains(sd[i]) }) ==> len(result) == 0
+//@ ensures vs_all(func(i int) bool { return 0 <= i && i < len(sd) ==> !ignores.Contains(sd[i]) }) ==> len(result) == len(sd) && vs_all(func(i int) bool { return 0 <= i && i < len(sd) ==> vs_reclassified(result[i], sd[i]) })
+//@ ensures vs_all(func(k int) bool { return 0 <= k && k < len(result) ==> vs_any(func(i int) bool { return 0 <= i && i < len(sd) && !ignores.Contains(sd[i]) && vs_reclassified(result[k], sd[i]) }) })
+//@ ensures vs_all(func(i int) bool { return 0 <= i && i < len(sd) && !ignores.Contains(sd[i]) ==> vs_any(func(k int) bool { return 0 <= k && k < len(result) && vs_reclassified(result[k], sd[i]) }) })
+//@ loop 1 invariant len(newDiffs) <= vs_done(1)
+//@ loop 1 invariant vs_all(func(i int) bool { return 0 <= i && i < vs_done(1) ==> ignores.Contains(sd[i]) }) ==> len(newDiffs) == 0
+//@ loop 1 invariant vs_all(func(i int) bool { return 0 <= i && i < vs_done(1) ==> !ignores.Contains(sd[i]) }) ==> len(newDiffs) == vs_done(1) && vs_all(func(i int) bool { return 0 <= i && i < vs_done(1) ==> vs_reclassified(newDiffs[i], sd[i]) })
+//@ loop 1 invariant vs_all(func(k int) bool { return 0 <= k && k < len(newDiffs) ==> vs_any(func(i int) bool { return 0 <= i && i < vs_done(1) && !ignores.Contains(sd[i]) && vs_reclassified(newDiffs[k], sd[i]) }) })
+//@ loop 1 invariant vs_all(func(i int) bool { return 0 <= i && i < vs_done(1) && !ignores.Contains(sd[i]) ==> vs_any(func(k int) bool { return 0 <= k && k < len(newDiffs) && vs_reclassified(newDiffs[k], sd[i]) }) })
